@@ -1380,14 +1380,16 @@ theorem c11_extracted_tables_agree :
     leaves the configuration as it was — `healH` is made of `foldXH`, `HInst.afterHeal` moves the counters only;
     `BioAgent(…).chaperone` is a default-configured `Chaperone` with a list of its own (protocol op `agent` = `new none`);
     the package's exports (`operon_ai`, `operon_ai.organelles`, `operon_ai.healing`) are the very classes the modules
-    define, not preconfigured stand-ins (protocol op `via` changes nothing). -/
+    define, not preconfigured stand-ins (protocol op `via` changes nothing); an omitted `strategies` / `co_chaperones` /
+    `on_misfold` argument is `None` (protocol token `omit` = `none`). -/
 theorem c11_extracted_wrapper_facts_agree :
     Gen.ChaperoneTables.loopCtorCalls = some loopCtorCalls ∧
     Gen.ChaperoneTables.loopCtorLeavesConfig = some true ∧
     Gen.ChaperoneTables.healCalls = some (healCallsFor 1) ∧
     Gen.ChaperoneTables.healLeavesConfig = some true ∧
     Gen.ChaperoneTables.agentChaperoneIsDefault = some true ∧
-    Gen.ChaperoneTables.exportsAreTheDefinitions = some true := by
-  refine ⟨by decide, by decide, by decide, by decide, by decide, by decide⟩
+    Gen.ChaperoneTables.exportsAreTheDefinitions = some true ∧
+    Gen.ChaperoneTables.omittedArgumentIsNone = some true := by
+  refine ⟨by decide, by decide, by decide, by decide, by decide, by decide, by decide⟩
 
 end Operon.Chaperone
